@@ -44,8 +44,14 @@ def _verify_one(args):
         if res.status == "ok":
             for name, pc in res.covers:
                 out["covers"].append((name, verify.check_cover(pc)))
+            hv = sorted(ex.notes.get("havoc_calls") or [])
             for ob in ex.obls:
-                verify.solve_obligation(ob, timeout_ms, ex=ex)
+                if hv:
+                    # a callee without contract was havocked: nothing in this unit can be decided ("needs contract")
+                    ob.status, ob.backend, ob.time = "unknown", "-", 0.0
+                    ob.reason = "unit calls functions without contract (havocked): " + ", ".join(hv)
+                else:
+                    verify.solve_obligation(ob, timeout_ms, ex=ex)
                 d = {"name": ob.name, "kind": ob.kind, "status": ob.status, "backend": ob.backend,
                      "time": round(ob.time, 4), "info": _jsonable(ob.info)}
                 if ob.status == "refuted":
